@@ -30,6 +30,24 @@ W_EXEC_ASSUMPTIONS = [
 def setup():
   env.import_openhtf()
   import workloads.bodies  # noqa: F401  pylint: disable=unused-import,g-import-not-at-top
+  warm_up()
+
+
+def warm_up():
+  """One throw-away run so that one-time initialisations (tempfile, mimetypes, attrs, inspect
+  caches...) have happened before the first recorded run - in workers and in replay processes alike."""
+  import mimetypes
+  import tempfile
+  from simkit import tape as tape_mod
+  tempfile.gettempdir()
+  mimetypes.init()
+  for seed in (1, 2, 3):
+    tp = tape_mod.Tape(seed=seed)
+    prof = gen_mod.profile(p_plug=400, p_attach=500, p_logs=600, p_timeout=100, abort=500, watchers=500,
+                           p_test_start=500, p_test_diag=500)
+    g = gen_mod.Gen(tp, prof)
+    spec = g.program()
+    run_mod.run_spec(tp, spec)
 
 
 def run_with(tape, prof, oracle_fns, nontrivial_fn=None, executes=1, extra_threads=None):
@@ -52,5 +70,9 @@ def run_with(tape, prof, oracle_fns, nontrivial_fn=None, executes=1, extra_threa
     nt = bool(obs.model.probe) or bool(obs.faults) or any(c not in 'p' for c in gen_mod.shape_of(spec))
   res = run_mod.result_from(obs, viols, probes, nt)
   if obs.failed in ('deadlock', 'hang') and not res.get('abnormal') and not viols:
-    res['abnormal'] = '%s: %s' % (obs.failed, obs.failed_info)
+    if obs.sim.sigint_sites and oracles.c04 not in oracle_fns:
+      # SIGINT-handler deadlocks are decided (and their findings owned) by C04
+      res['probes']['sigint_deadlock_left_to_C04'] = 1
+    else:
+      res['abnormal'] = '%s: %s' % (obs.failed, obs.failed_info)
   return res
